@@ -346,3 +346,132 @@ def wire_unambiguous(spec):
         if not walk(obj.body, False):
             return False
     return True
+
+
+# ---------------------------------------------------------------- C01 domain, per class
+def c01_domain(spec, decl, ctx_chunked, top=True, _depth=0):
+    """(in_domain, ends_unbounded, may_contain_0xFF) for one object entered in the given context.
+    Conservative reading of 'wire-unambiguous': unbounded items only at the end of a segment or
+    chunk; no 0xFF-capable data ahead of a chunked section nor inside one; dummy only in
+    otherwise-empty bodies; optional fields last."""
+    from .concrete import fixed_size
+    if _depth > 6:
+        return False, True, True
+    body = decl.body
+    insns = [i for i in body]
+    flat = list(flatten_own(body))
+    if any(i.tag == "dummy" for i in flat) and len([i for i in flat if i.tag != "chunked"]) > 1:
+        return False, False, False
+    state = {"tail": False, "ff_seen": False, "ff_any": False, "ok": True}
+
+    def item(ins, chunked):
+        """(ok, unbounded, ff) of one field-like instruction"""
+        if ins.tag == "length":
+            t = resolve_type(spec, ins.type)
+            return True, bool(ins.optional), t.under == "byte"
+        if ins.tag == "dummy":
+            t = resolve_type(spec, ins.type)
+            return True, False, t.kind != "int" or t.under == "byte"
+        if ins.tag == "field":
+            t = resolve_type(spec, ins.type, ins.length if is_str(ins.type) else None)
+            if ins.value is not None:
+                if t.kind in ("string", "encoded_string"):
+                    lossy = any(ord(c) > 0x7D or ord(c) < 0x20 for c in ins.value)
+                    unb = ins.length is None
+                    return not lossy, unb, bool(ins.padded)
+                return True, False, t.under == "byte"
+            unb = bool(ins.optional)
+            if t.kind in ("int", "enum"):
+                return True, unb, t.under == "byte"
+            if t.kind == "bool":
+                return True, unb, False
+            if t.kind in ("string", "encoded_string"):
+                if ins.length is None:
+                    return True, True, not chunked
+                if ins.length.isdigit():
+                    return True, unb, bool(ins.padded) or not chunked
+                return True, unb, bool(ins.padded) or not chunked
+            if t.kind == "blob":
+                return True, True, True
+            if t.kind == "struct":
+                ok, u, ff = c01_domain(spec, t.struct, chunked, top=False, _depth=_depth + 1)
+                return ok, u or unb, ff
+        if ins.tag == "array":
+            t = resolve_type(spec, ins.type)
+            if t.kind == "struct":
+                ok, ue, ffe = c01_domain(spec, t.struct, chunked, top=False, _depth=_depth + 1)
+            elif t.kind in ("string", "encoded_string"):
+                ok, ue, ffe = True, True, not chunked
+            elif t.kind == "blob":
+                ok, ue, ffe = True, True, True
+            else:
+                ok, ue, ffe = True, False, t.under == "byte"
+            if not ok:
+                return False, True, True
+            if ins.delimited and ffe:
+                return False, True, True
+            if ins.length is None:
+                if not ins.delimited and ue:
+                    return False, True, True
+                return True, True, ffe
+            unb = bool(ins.optional)
+            if ue and not (ins.delimited and ins.trailing):
+                unb = True
+                if not ins.delimited:
+                    return False, True, True
+            return True, unb, ffe
+        return True, False, False
+
+    def walk(b, chunked):
+        for ins in b:
+            if not state["ok"]:
+                return
+            if ins.tag == "break":
+                state["tail"] = False
+                continue
+            if state["tail"]:
+                state["ok"] = False
+                return
+            if ins.tag == "chunked":
+                if chunked:
+                    walk(ins.body, True)
+                    continue
+                if state["ff_seen"] or not top:
+                    state["ok"] = False
+                    return
+                walk(ins.body, True)
+                # items after an own chunked section are read outside chunked mode
+                continue
+            if ins.tag == "switch":
+                unb = False
+                for c in ins.cases:
+                    if not c.body:
+                        continue
+                    from .ir import Obj
+                    ok, u, ff = c01_domain(spec, Obj("case", "case", c.body, decl.path), chunked, top=False, _depth=_depth + 1)
+                    if not ok:
+                        state["ok"] = False
+                        return
+                    unb = unb or u
+                    if ff:
+                        if chunked:
+                            state["ok"] = False
+                            return
+                        state["ff_seen"] = True
+                        state["ff_any"] = True
+                state["tail"] = unb
+                continue
+            ok, unb, ff = item(ins, chunked)
+            if not ok:
+                state["ok"] = False
+                return
+            if ff:
+                if chunked:
+                    state["ok"] = False
+                    return
+                state["ff_seen"] = True
+                state["ff_any"] = True
+            if unb:
+                state["tail"] = True
+    walk(body, ctx_chunked)
+    return state["ok"], state["tail"], state["ff_any"]
